@@ -62,4 +62,20 @@ func init() {
 				Variants: c15Variants(42), MaxSteps: 600_000},
 		},
 	})
+
+	// ---------------------------------------------------------------- C32
+	register(&checkSpec{
+		ID:   "C32",
+		Rule: "one path = one class of inputs through BOTH real scanners (tpl/scanner.Scan and scanner.Scan) on the same bytes: concrete context P + window of <= N symbolic bytes, both comment modes; offsets, literals, inserted semicolons and EOF compared until EOF",
+		Assumptions: []string{
+			"shared lexemes only: window bytes exclude ~ and @ (TPL-only tokens); an input whose XGo stream contains a keyword, c\"..\" or py\"..\", or whose TPL stream contains ** is outside the property and dropped",
+			"token kinds are not compared (different token sets); comment literals are compared after removing carriage returns (the two stripCR differ by design)",
+			"ASCII=1: window bytes < 0x80",
+		},
+		Harnesses: []harnessSpec{
+			{Name: "VxC32", Pkg: "github.com/goplus/xgo/tpl/scanner", Files: []string{"c32/c32.go"},
+				Quick: map[string]int{"N": 2, "ASCII": 1}, Thorough: map[string]int{"N": 3, "ASCII": 1},
+				Variants: c15Variants(41), MaxSteps: 600_000},
+		},
+	})
 }
